@@ -19,7 +19,7 @@ pub fn def() -> CheckDef {
         level: "exploration",
         assumptions: &["rows are read from the backing collections at quiescent points", "monotone simulated clock", "no storage errors are injected"],
         probes: &["probe.ended_completed", "probe.ended_error", "probe.ended_aborted", "probe.keep_processes", "probe.default_retention", "probe.sqlite", "probe.late_action", "probe.model_with_events_removed", "probe.other_process_running_at_removal"],
-        quick_cases: 1500,
+        quick_cases: 3000,
         no_shrink: &[],
     }
 }
@@ -29,7 +29,7 @@ fn gen_scenario(rng: &mut vsim::rng::Rng) -> Scenario {
     let mut sc = Scenario::default();
     let mut reactions = BTreeMap::new();
     for mi in 0..nmodels {
-        let opts = LifeOpts { catches: false, scripted_actions: &["complete", "complete", "error", "abort", "skip"], p_scripted: *rng.pick(&[200, 400, 600]), adversary: None, dup: false, generators: false, hooks: false, outputs: false };
+        let opts = LifeOpts { catches: false, scripted_actions: &["complete", "complete", "error", "abort", "skip"], p_scripted: *rng.pick(&[200, 400, 600]), adversary: None, dup: false, generators: false, hooks: false, outputs: false, drop_outputs: false };
         let mut one = gen_lifecycle(rng, &opts);
         let mut m = one.models.remove(0);
         m.id = format!("m{}", mi + 1);
